@@ -28,11 +28,14 @@ func (e *Error) updateFromTokenIfNeeded(template *Template, t *Token) *Error {
 	}
 
 	if e.Token == nil {
-		e.Token = t
 		if e.Line <= 0 {
+			e.Token = t
 			e.Line = t.Line
 			e.Column = t.Col
 		}
+		// An error that already carries its own position (e. g. a lexer error
+		// inside an included template) keeps it; attaching the token of the
+		// referring tag would pair a position in one file with a token of another.
 	}
 
 	return e
